@@ -1,4 +1,72 @@
-From Coq Require Import List NArith.
-Theorem c04_placeholder : (1 + 1 = 2)%N.
-Proof. reflexivity. Qed.
-Print Assumptions c04_placeholder.
+(* C04  Recovery after a crash at any point is consistent.
+   One-key model (Hybrid/Engine.v).  A crash leaves the device as some reachable state has it: the flusher's unit of
+   visibility is the (single, page-sized, hence untearable) blob index page, written after the entry data it lists, so
+   between any two device writes the published copies of the key are exactly [kdisk s] for a reachable [s]; data
+   written but not yet listed is invisible to the scan.  A crash at state [s] followed by a reopen is [do_recover c s vis]
+   ([vis]: what the scan sees of the device; memory, the write queue and the flusher pipeline are lost). *)
+From Coq Require Import List NArith Bool.
+From FV Require Import Hybrid.Engine Hybrid.EngineInv Hybrid.EngineThms Hybrid.EngineVers.
+Import ListNotations.
+Open Scope N_scope.
+
+(* after a crash at ANY point of ANY history, and whatever part of the device the scan reaches, a key reads as a miss
+   or as a version that was really written for it (no restriction on the history, not even on the defect flags) *)
+Theorem c04_crash_reads_written : forall c l vis v,
+  lookup_now (do_recover c (krun c init_k l) vis) = Some v -> In v (ksubs (krun c init_k l)).
+Proof. exact recovery_serves_written. Qed.
+Print Assumptions c04_crash_reads_written.
+
+(* the latest write of the key, once flushed (its index page is on the device) - in particular once acknowledged -
+   is what a reopen serves: that version, not an older one (no reclaim: the copy is still on the device) *)
+Theorem c04_latest_flushed_write_survives : forall c l vis v sq b,
+  bug_rr c = false -> run_ok c init_k l ->
+  ktop (krun c init_k l) = Some (Some v, sq) -> In (v, sq, b) (kdisk (krun c init_k l)) ->
+  (forall x, In x (kdisk (krun c init_k l)) -> In x vis) ->
+  lookup_now (do_recover c (krun c init_k l) vis) = Some v.
+Proof.
+  intros c l vis v sq b Hrr Hok. apply recovery_serves_latest.
+  - apply kinv_run; auto. apply kinv_init.
+  - apply tinv_run; auto; [apply kinv_init|apply tinv_init].
+Qed.
+Print Assumptions c04_latest_flushed_write_survives.
+
+(* the latest delete of the key, once logged (tombstone log on: the log page is written in the same io task as the
+   batch), reads as a miss after a reopen *)
+Theorem c04_logged_delete_survives : forall c l vis sq,
+  bug_rr c = false -> run_ok c init_k l ->
+  ktop (krun c init_k l) = Some (None, sq) -> In sq (ktlog (krun c init_k l)) ->
+  lookup_now (do_recover c (krun c init_k l) vis) = None.
+Proof.
+  intros c l vis sq Hrr Hok. apply recovery_honours_logged_delete.
+  - apply kinv_run; auto. apply kinv_init.
+  - apply tinv_run; auto; [apply kinv_init|apply tinv_init].
+Qed.
+Print Assumptions c04_logged_delete_survives.
+
+(* "never an older one": the winner of recovery has a sequence at least that of any copy the scan sees, so an
+   acknowledged write loses only to later submissions *)
+Theorem c04_winner_not_older : forall s vis v0 sq0 b0,
+  In (v0, sq0, b0) (visible vis (kdisk s)) -> exists e, best_of s vis = Some e /\ sq0 <= iseq e.
+Proof. exact winner_at_least. Qed.
+Print Assumptions c04_winner_not_older.
+
+(* versions written after a restart supersede versions from before it: the counter restarts above everything
+   recovered, so the theorems above hold across any number of crash / restart cycles ([KRestart] is a step of
+   [run_ok] histories); here: the recovered state satisfies the invariants again *)
+Theorem c04_invariants_survive_restart : forall c s b vis,
+  bug_rr c = false -> KInv c s -> TInv s -> restart_ok c s b vis ->
+  KInv c (kstep c s (KRestart b vis)) /\ TInv (kstep c s (KRestart b vis)).
+Proof. intros. split; [apply kinv_step|apply tinv_step]; auto. Qed.
+Print Assumptions c04_invariants_survive_restart.
+
+Example c04_nonvacuous :
+  let c := mkCfg true true false true true false in
+  (* v1 flushed and acknowledged; v2 submitted, its data written and listed (KFlush) but the batch not yet completed;
+     v3 still in the queue: a crash serves v2; without v2's flush it serves v1 *)
+  let l1 := [KIns LDefault; KFlush 0; KComplete; KIns LDefault] in
+  let l2 := l1 ++ [KFlush 0; KIns LDefault] in
+  run_ok c init_k l2 /\
+  lookup_now (do_recover c (krun c init_k l1) (kdisk (krun c init_k l1))) = Some 1 /\
+  lookup_now (do_recover c (krun c init_k l2) (kdisk (krun c init_k l2))) = Some 2 /\
+  ktruth (krun c init_k l2) = Some 3.
+Proof. vm_compute. repeat split; discriminate. Qed.
